@@ -344,3 +344,21 @@ func SnapshotVirtual(d virtual.PrepopulatedDirectory) (*Node, error) {
 	}
 	return n, nil
 }
+
+// RemoveVirtual deletes the node at loc (a list of components below root)
+// recursively, the way the action's "rm -rf" would.
+func RemoveVirtual(root virtual.PrepopulatedDirectory, loc []string) error {
+	d := root
+	for _, c := range loc[:len(loc)-1] {
+		child, err := d.LookupChild(path.MustNewComponent(c))
+		if err != nil {
+			return err
+		}
+		dir, _ := child.GetPair()
+		if dir == nil {
+			return fmt.Errorf("%q is not a directory", c)
+		}
+		d = dir
+	}
+	return d.RemoveAll(path.MustNewComponent(loc[len(loc)-1]))
+}
